@@ -412,6 +412,8 @@ def run(ctx):
     control_values_are_ints_rule(ctx, 'C04.i')
     wrapper_shape_rule(ctx, 'C04.j')
     extract_phase_rule(ctx, 'C04.k')
+    tensor_arguments_stay_arrays_rule(ctx, 'C04.l')
+    ctx.decided.append('C04.l tensors handed to the Apply*Args objects are arrays also for zero-qubit states (no bare ufunc results)')
     ctx.decided.append('C04.k _extract_phase drops the global phase operation only when the phase is 1 (interpreted on a grid of shifts and exponents)')
     ctx.decided.append('C04.j gate wrappers that size themselves from the wrapped gate also take their qid shape from it')
     ctx.decided.append('C04.i the constructors of the control-value classes store plain ints (the stored values are used as numpy indices, where a bool is a mask)')
@@ -811,3 +813,38 @@ def extract_phase_rule(ctx, rid='C04.k'):
                 bad = f'returns {got[1:] or "no phase operation"}: the global phase exp(i pi {shift} * {e}) = {want_phase:.4g} is lost or wrong'
             k += 1
             ctx.ob(rid, f'cirq.ops.common_gates._extract_phase:shift={shift:.4g}:exponent={e:g}', bad is None, bad or '', m.rel, fn.lineno)
+
+
+# ---------------------------------------------------------------------------------------------------------------------
+# C04.l  numpy ufuncs hand back a *scalar* for a 0-d array.  The state of a program on no qubits (and the zero-qubit factor of a
+# split state that carries the global phase) is such a 0-d array, and the apply protocols check that the tensors of derived
+# argument objects are views of the caller's tensors.
+UFUNC_NAMES = {'conjugate', 'conj', 'negative', 'abs', 'absolute', 'real', 'imag', 'sqrt', 'exp', 'square', 'positive'}
+
+
+def tensor_arguments_stay_arrays_rule(ctx, rid='C04.l'):
+    repo = ctx.repo
+    ctx.rule(rid, 'tensor arguments stay arrays: a value handed to Apply*Args as target_tensor / available_buffer / out_buffer / auxiliary_buffer* is never the bare result of a numpy ufunc '
+             'call (np.conjugate(x), np.abs(x), ...) - for the 0-d tensor of a zero-qubit state a ufunc returns a scalar, not an array, and the protocol refuses it (the default '
+             'DensityMatrixSimulator could not run a circuit containing a global phase operation); np.asarray(...) or out= keeps the array', floor=2, style='EFF')
+    n = 0
+    for mod, ci, fn in repo.all_functions():
+        if mod.rel.endswith('_test.py') or '/testing/' in mod.rel or not mod.rel.startswith('cirq-core/cirq/'):
+            continue
+        for c in ast.walk(fn):
+            if not (isinstance(c, ast.Call) and call_name(c).split('.')[-1] in ('ApplyUnitaryArgs', 'ApplyChannelArgs', 'ApplyMixtureArgs')):
+                continue
+            for k in c.keywords:
+                if k.arg not in ('target_tensor', 'available_buffer', 'out_buffer', 'auxiliary_buffer0', 'auxiliary_buffer1'):
+                    continue
+                v = k.value
+                if not isinstance(v, ast.Call):
+                    continue
+                n += 1
+                f = v.func
+                bare = isinstance(f, ast.Attribute) and isinstance(f.value, ast.Name) and f.value.id in ('np', 'numpy') and f.attr in UFUNC_NAMES \
+                    and not any(kk.arg == 'out' for kk in v.keywords)
+                ctx.ob(rid, f'{mod.name}.{(ci.name + ".") if ci else ""}{fn.name}:{k.arg}', not bare, '' if not bare else
+                       f'`{k.arg}={ast.unparse(v)}`: for a 0-d tensor np.{f.attr} returns a numpy scalar, which is not a view of anything', mod.rel, v.lineno)
+    if n == 0:
+        raise AnalysisError(f'{rid}: no computed tensor argument found')
